@@ -821,3 +821,99 @@ Proof.
       destruct (_ <? frame_len_of f - 1 + 1) eqn:E; [reflexivity|].
       rewrite len_app in E. unfold len in E. rewrite firstn_length in E. lia.
 Qed.
+
+(* ================= C11 / C17: wide histories (every public attribute) ================= *)
+
+(* the decoder establishes the size invariant as well *)
+Lemma tfdf_unpack_fresh raw tr e ft t : tfdf_unpack raw tr e ft = Ok t ->
+  tsize t = tfdf_header_len (fhp t) + len (tfdz t).
+Proof.
+  unfold tfdf_unpack. destruct (len raw <? 1); [discriminate|].
+  destruct (py_get raw 0) as [r0|]; cbn [bind]; [|discriminate].
+  destruct (match ft with Some f => negb (verify_frame_type _ f) | None => false end); [discriminate|].
+  destruct (should_have_fhp _ tr ft).
+  - destruct (_ || _); cbn [bind]; [discriminate|].
+    destruct (py_get raw 1); cbn [bind]; [|discriminate].
+    destruct (py_get raw 2); cbn [bind]; [|discriminate].
+    intros E. injection E as <-. reflexivity.
+  - cbn [bind]. intros E. injection E as <-. reflexivity.
+Qed.
+
+Lemma frame_unpack_fresh raw ft p f : frame_unpack raw ft p = Ok f -> tsize_fresh f.
+Proof.
+  rewrite frame_unpack_unfold. destruct (len raw <? 4); [discriminate|].
+  intros H. apply bind_ok in H. destruct H as (_ & _ & H).
+  apply bind_ok in H. destruct H as (ht & _ & H).
+  apply bind_ok in H. destruct H as (h & _ & H).
+  unfold frame_unpack_body in H.
+  apply bind_ok in H. destruct H as (_ & _ & H).
+  apply bind_ok in H. destruct H as (efl & _ & H).
+  destruct (len raw <? efl); [discriminate|].
+  apply bind_ok in H. destruct H as (e & _ & H).
+  destruct (_ || _); [discriminate|].
+  apply bind_ok in H. destruct H as ([iz cur] & _ & H).
+  apply bind_ok in H. destruct H as (t & T & H).
+  apply tfdf_unpack_fresh in T.
+  destruct h as [b|ph].
+  - injection H as <-. exact T.
+  - destruct (negb (ocf_flag ph =? 0)); injection H as <-; exact T.
+Qed.
+
+(* every operation of the wide histories except the direct assignment of the pointer keeps the
+   cached data field size in step with (pointer, data zone) *)
+Definition fop2_keeps_size (o : fop2) : Prop :=
+  match o with O2SetFhp _ => False | _ => True end.
+
+Lemma frame_apply2_fresh f tr ft o f' : tsize_fresh f -> fop2_keeps_size o ->
+  frame_apply2 f tr ft o = Ok f' -> tsize_fresh f'.
+Proof.
+  intros F K. destruct o; cbn [frame_apply2 fop2_keeps_size] in *;
+    try (intros E; injection E as <-; exact F).
+  - intros E. injection E as <-. apply frame_apply_fresh. exact F.
+  - contradiction.
+  - intros E. apply bind_ok in E. destruct E as (t & T & E). injection E as <-.
+    unfold tsize_fresh, with_tfdf. cbn [ftfdf]. eapply tfdf_new_fresh. exact T.
+  - unfold frame_roundtrip. intros E.
+    apply bind_ok in E. destruct E as (raw & _ & E).
+    apply bind_ok in E. destruct E as (p & _ & E).
+    eapply frame_unpack_fresh. exact E.
+Qed.
+
+(* a refused operation leaves the object as it was *)
+Fixpoint frame_run2 (f : frame) (tr : bool) (ft : option ftype) (ops : list fop2) : frame :=
+  match ops with
+  | [] => f
+  | o :: r => match frame_apply2 f tr ft o with
+              | Ok f' => frame_run2 f' tr ft r
+              | Err _ => frame_run2 f tr ft r
+              end
+  end.
+
+(* after any such history the cached sizes are up to date, hence (for a frame the standard defines)
+   len() is the size of pack() *)
+Theorem frame_history2_len ops tr ft0 : forall f, tsize_fresh f -> Forall fop2_keeps_size ops ->
+  let f' := frame_run2 f tr ft0 ops in
+  tsize_fresh f' /\
+  (forall ft, frame_consistent f' -> ft = None \/ ft = Some (ftype_of_rule (rules (ftfdf f'))) ->
+     exists raw, frame_pack f' (hdr_truncated (hdr f')) ft = Ok raw /\ len raw = frame_len_of f').
+Proof.
+  induction ops as [|o ops IH]; intros f Hf K; cbn [frame_run2].
+  - split; [assumption|]. intros ft Hc Hft. apply frame_len_is_pack_len; assumption.
+  - inversion K; subst. destruct (frame_apply2 f tr ft0 o) as [f1|] eqn:E.
+    + apply IH; [|assumption]. eapply frame_apply2_fresh; eassumption.
+    + apply IH; assumption.
+Qed.
+
+(* the direct assignment of the pointer is the one operation that leaves len() behind: nothing is
+   recomputed *)
+Theorem frame_set_fhp_len_unchanged f tr ft p f' :
+  frame_apply2 f tr ft (O2SetFhp p) = Ok f' ->
+  frame_len_of f' = frame_len_of f /\ fhp (ftfdf f') = p.
+Proof. cbn [frame_apply2]. intros E. injection E as <-. split; reflexivity. Qed.
+
+(* header attribute assignments do not touch the data field, the zones or the cached size *)
+Theorem frame_hdr_assign_parts f tr ft k v f' :
+  frame_apply2 f tr ft (O2Hdr k v) = Ok f' ->
+  ftfdf f' = ftfdf f /\ izone f' = izone f /\ ocf f' = ocf f /\ fecf f' = fecf f /\
+  hdr f' = fhdr_set (hdr f) k v.
+Proof. cbn [frame_apply2]. intros E. injection E as <-. repeat split. Qed.
